@@ -165,3 +165,60 @@ impl ImmutableDigester for SimDigester {
         Ok(MKTree::new(&leaves).expect("merkle tree over simulated immutable digests"))
     }
 }
+
+/// Block scanner double: the chain is a function of the block number only (block `n` sits in slot
+/// `10 n`, carries one transaction), every node that reads up to the same block number sees the
+/// same blocks. Forks and the real chain reader / streamer are the import engine's subject.
+pub struct SimBlockScanner {
+    pub view: SharedView,
+}
+
+struct SimBlockStreamer {
+    next: u64,
+    end: u64,
+    last: Option<mithril_cardano_node_chain::entities::RawCardanoPoint>,
+}
+
+#[async_trait]
+impl mithril_cardano_node_chain::chain_scanner::BlockScanner for SimBlockScanner {
+    async fn scan(
+        &self,
+        from: Option<mithril_cardano_node_chain::entities::RawCardanoPoint>,
+        until: BlockNumber,
+    ) -> StdResult<Box<dyn mithril_cardano_node_chain::chain_scanner::BlockStreamer>> {
+        let (tip, down) = {
+            let v = self.view.lock().unwrap();
+            (v.block, v.down)
+        };
+        if down {
+            anyhow::bail!("simulated cardano node is unavailable");
+        }
+        let next = from.as_ref().filter(|p| !p.is_origin()).map(|p| *p.slot_number / 10 + 1).unwrap_or(1);
+        Ok(Box::new(SimBlockStreamer { next, end: (*until).min(tip), last: from }))
+    }
+}
+
+#[async_trait]
+impl mithril_cardano_node_chain::chain_scanner::BlockStreamer for SimBlockStreamer {
+    async fn poll_next(&mut self) -> StdResult<Option<mithril_cardano_node_chain::chain_scanner::ChainScannedBlocks>> {
+        use mithril_cardano_node_chain::entities::{RawCardanoPoint, ScannedBlock};
+        if self.next > self.end {
+            return Ok(None);
+        }
+        let upto = (self.next + 39).min(self.end);
+        let blocks: Vec<ScannedBlock> = (self.next..=upto)
+            .map(|n| ScannedBlock::new(format!("block-{n:08}").into_bytes(), BlockNumber(n), SlotNumber(n * 10), vec![hex_of(&format!("tx-{n:08}"))]))
+            .collect();
+        self.last = Some(RawCardanoPoint::new(SlotNumber(upto * 10), format!("block-{upto:08}").into_bytes()));
+        self.next = upto + 1;
+        Ok(Some(mithril_cardano_node_chain::chain_scanner::ChainScannedBlocks::RollForwards(blocks)))
+    }
+
+    fn last_polled_point(&self) -> Option<mithril_cardano_node_chain::entities::RawCardanoPoint> {
+        self.last.clone()
+    }
+}
+
+fn hex_of(s: &str) -> String {
+    s.bytes().map(|b| format!("{b:02x}")).collect()
+}
